@@ -756,10 +756,55 @@ func (c *Ctx) checkProgramLoopsAndAllocs(r *Report) {
 					"the new eval.State evaluates program text (nested eval/unjson, macro bodies) but its Context is never set from the state already running: evalInternal only tests a non-nil Context, so that evaluation ignores the deadline (unjson(\"for true {}\") never returns)")
 			}
 		}
-		if n7 < 2 {
-			r.Undecided("C09.R7: only %d state constructions next to a running state found (EvalString and extendMacroEnv expected)", n7)
+		// a function that hands a state other than its receiver back to its caller sets that state's Context
+		// from the receiver's on every path (a state kept from an earlier input holds that input's cancelled context)
+		for _, fn := range c.ModuleSSAFuncs() {
+			if fn.Pkg == nil || shortPkg(fn.Pkg.Pkg) != "eval" || fn.Signature.Recv() == nil || !isStatePtr(fn.Signature.Recv().Type()) {
+				continue
+			}
+			res := fn.Signature.Results()
+			if res.Len() != 1 || !isStatePtr(res.At(0).Type()) {
+				continue
+			}
+			recv := fn.Params[0]
+			isCtxFromRecv := func(in ssa.Instruction) bool {
+				st, ok := in.(*ssa.Store)
+				if !ok {
+					return false
+				}
+				fa, ok := st.Addr.(*ssa.FieldAddr)
+				if !ok || fa.Field != ctxIdx || !isStatePtr(fa.X.Type()) || fa.X == ssa.Value(recv) {
+					return false
+				}
+				ld, ok := st.Val.(*ssa.UnOp)
+				if !ok {
+					return false
+				}
+				lfa, ok := ld.X.(*ssa.FieldAddr)
+				return ok && lfa.Field == ctxIdx && lfa.X == ssa.Value(recv)
+			}
+			returnsOther := false
+			eachInstr(fn, func(in ssa.Instruction) {
+				if ret, ok := in.(*ssa.Return); ok && retVal(ret, 0) != ssa.Value(recv) {
+					returnsOther = true
+				}
+			})
+			if !returnsOther {
+				continue
+			}
+			n7++
+			bad := mustPassFromEntry(fn, isCtxFromRecv, isReturn)
+			desc := "the state handed back carries the receiver's current Context on every path"
+			if bad != nil {
+				r.Fail("C09.R7", ssaFuncName(fn), desc, c.Pos(instrPos(bad.exit)), "a path returns a state whose Context was not set from the running state during this call (a state created once and reused keeps the context of the input that created it, cancelled since: macro bodies then fail with `context canceled`, or run without deadline)", c.tracePath(bad)...)
+			} else {
+				r.Ok("C09.R7", ssaFuncName(fn), desc, c.Pos(fn.Pos()))
+			}
 		}
-		r.Floor("C09.R7", 2)
+		if n7 < 3 {
+			r.Undecided("C09.R7: only %d state constructions / hand-backs next to a running state found (EvalString and extendMacroEnv expected)", n7)
+		}
+		r.Floor("C09.R7", 3)
 	}
 	// R8: a callback that takes the deadline away gives one back
 	{
